@@ -33,6 +33,8 @@ type c13Case struct {
 	// Inflate > 0: the first peer of the top height (the carrier of the tip's commit) claims to have Inflate more heights than
 	// it has (a false status), answers the request for its real height according to the strategy and is silent about the rest
 	Inflate int64 `json:"inflate,omitempty"`
+	// InflateLate: the false status is sent only after that peer has answered what it was asked (it has been idle once)
+	InflateLate bool `json:"inflate_late,omitempty"`
 	// Push > 0: before any peer that has height Push is known (only the top peer has reported its status, so the pool already has a
 	// requester for Push with nobody to ask), a connected peer that never reported a status sends an unsolicited answer for that
 	// height: PushLie from the menu (the fork block, or the canonical block)
@@ -50,19 +52,20 @@ type c13Event struct {
 // ---- network of one case ----
 
 type c13Net struct {
-	chain  *c13kit.Chain
-	node   *c13kit.Node
-	bcR    *BlockchainReactor
-	sw     *p2p.Switch
-	hand   *c13hand.Reactor
-	events chan c13Event
-	peers  []*c13Peer
-	cur    map[int64]*c13Peer // current peer per height
-	nextK  map[int64]int
-	strat  c13kit.Strategy
-	inflate int64
-	seq    int
-	trace  func(string, ...interface{})
+	chain       *c13kit.Chain
+	node        *c13kit.Node
+	bcR         *BlockchainReactor
+	sw          *p2p.Switch
+	hand        *c13hand.Reactor
+	events      chan c13Event
+	peers       []*c13Peer
+	cur         map[int64]*c13Peer // current peer per height
+	nextK       map[int64]int
+	strat       c13kit.Strategy
+	inflate     int64
+	inflateLate bool
+	seq         int
+	trace       func(string, ...interface{})
 }
 
 var c13Trace = os.Getenv("C13_TRACE") != ""
@@ -71,8 +74,10 @@ type c13Writer struct {
 	f func(string, ...interface{})
 }
 
-func (w c13Writer) Write(b []byte) (int, error) { w.f("%s", strings.TrimSpace(string(b))); return len(b), nil }
-
+func (w c13Writer) Write(b []byte) (int, error) {
+	w.f("%s", strings.TrimSpace(string(b)))
+	return len(b), nil
+}
 
 func c13NewNet(chain *c13kit.Chain, st c13kit.Strategy) *c13Net {
 	n := &c13Net{chain: chain, node: chain.NewNode(), events: make(chan c13Event, 4096), cur: map[int64]*c13Peer{},
@@ -116,7 +121,7 @@ func (n *c13Net) addPeer(h int64) *c13Peer {
 	p2p.AddPeerToSwitchPeerSet(n.sw, p)
 	n.bcR.AddPeer(p)
 	top := h
-	if n.inflate > 0 && h == c13kit.Tip+1 && k == 0 {
+	if n.inflate > 0 && !n.inflateLate && h == c13kit.Tip+1 && k == 0 {
 		top = h + n.inflate
 	}
 	n.deliver(p, c13kit.StatusMsg(h, top))
@@ -179,7 +184,7 @@ func c13Run(chain *c13kit.Chain, c c13Case) (res c13Result) {
 		peerTimeout = 15 * time.Second
 	}
 	n := c13NewNet(chain, c.Strategy)
-	n.inflate = c.Inflate
+	n.inflate, n.inflateLate = c.Inflate, c.InflateLate
 	defer n.close()
 	diag := func(s string) { res.Diags = append(res.Diags, s) }
 	t0 := time.Now()
@@ -287,6 +292,10 @@ LOOP:
 				continue
 			}
 			n.answer(p)
+			if c.Inflate > 0 && c.InflateLate && p.H == c13kit.Tip+1 && p.K == 0 {
+				// it has answered everything it was asked; now it claims more
+				n.deliver(p, c13kit.StatusMsg(p.H, p.H+c.Inflate))
+			}
 		case <-n.hand.Done:
 			break LOOP // the reactor switched to consensus by itself
 		case <-tick.C:
@@ -342,6 +351,22 @@ LOOP:
 			time.Sleep(time.Millisecond)
 		}
 	}
+	// a peer that claimed heights it never serves must be dropped (its claim keeps the node from seeing itself caught up)
+	var liar *c13Peer
+	if c.Inflate > 0 {
+		for _, p := range n.peers {
+			if p.H == c13kit.Tip+1 && p.K == 0 {
+				liar = p
+			}
+		}
+		if liar != nil && reached {
+			grace := time.Now().Add(10 * time.Second)
+			for liar.IsRunning() && time.Now().Before(grace) && n.bcR.pool.IsRunning() {
+				time.Sleep(time.Millisecond)
+			}
+		}
+	}
+	liarKept := liar != nil && reached && liar.IsRunning() && n.bcR.pool.IsRunning()
 	pusherKept := pusher != nil && pusher.IsRunning()
 	handedOver := n.hand.Result().Called
 	if n.bcR.IsRunning() {
@@ -406,6 +431,12 @@ LOOP:
 			res.Outcome = "violation"
 			return
 		}
+	}
+	if liarKept {
+		res.Key = "blockchain/v0:silent-peer-with-false-status-not-dropped"
+		res.What = fmt.Sprintf("the peer of height %d claimed %d more heights (late=%v), never answered a request for them, and is still connected 10 s after the node stored the tip (peer timeout in this case: %v)", liar.H, c.Inflate, c.InflateLate, peerTimeout)
+		res.Outcome = "violation"
+		return
 	}
 	if pusherKept && !pushed.Usable && pushed.Msg != nil {
 		res.Key = "blockchain/v0:unsolicited-answer-taken:sender-not-stopped-after:" + c.PushLie.String()
@@ -561,7 +592,7 @@ func TestVerifC13V0(t *testing.T) {
 	// false status: the same <= 1-lie strategies with the first peer of the top height claiming two more heights than it has
 	if !stop {
 		c13kit.Enumerate(func(int) []c13kit.Lie { return c13kit.FullMenu() }, 1, func(s c13kit.Strategy) bool {
-			for _, nat := range []bool{false, true} {
+			for _, v := range []c13Case{{Strategy: s, Inflate: 2}, {Strategy: s, Natural: true, Inflate: 2}, {Strategy: s, Inflate: 2, InflateLate: true}} {
 				k++
 				if !r.Mine(k) {
 					continue
@@ -570,7 +601,7 @@ func TestVerifC13V0(t *testing.T) {
 					stop = true
 					return false
 				}
-				run(c13Case{Strategy: s, Natural: nat, Inflate: 2})
+				run(v)
 			}
 			return true
 		})
